@@ -2,6 +2,8 @@
 C13 — Loading untrusted bytes is total, typed-error-only and side-effect free.
 -/
 import ExecnetVerif.Proofs.SerGrammar
+import ExecnetVerif.Proofs.SerPrefix
+import ExecnetVerif.Props.C01
 import ExecnetVerif.Generated.Tables
 namespace ExecnetVerif
 
@@ -54,6 +56,26 @@ theorem C13_version (cfg : Cfg) (b : UInt8) (rest : Bytes) (h : b ≠ dumpVersio
     loads cfg (b :: rest) = .error .dataFormat := by
   simp [loads, h]
 
+/-- **C13 (no prefix).** No strict prefix of a valid dump loads successfully: loading it fails, and it
+fails as "the input ended early" (EOFError).  (`dumps v = .ok (dumpVersion :: (enc v ++ [opSTOP]))`
+for a well-formed `v` is `C01_total`.) -/
+theorem C13_no_prefix (cfg : Cfg) (hcfg : cfg.py3str_as_py2str = false) (hmem : cfg.memLimit = none)
+    (v : PyVal) (h : WF v) (p : Bytes) (hp : p <+: dumpVersion :: (enc v ++ [opSTOP]))
+    (hne : p ≠ dumpVersion :: (enc v ++ [opSTOP])) : loads cfg p = .error .eof := by
+  rcases SP_cons ((SP_iff _ _).mpr ⟨hp, hne⟩) with rfl | ⟨q, rfl, hq⟩
+  · rfl
+  · simp only [loads, if_true]
+    exact run_dump_prefix cfg hcfg hmem v h q hq []
+
+/-- the same, stated against `dumps`: every strict prefix of the bytes `dumps` produces -/
+theorem C13_no_prefix_dumps (cfg : Cfg) (hcfg : cfg.py3str_as_py2str = false)
+    (hmem : cfg.memLimit = none) (v : PyVal) (h : WF v) (bs p : Bytes) (hd : dumps v = .ok bs)
+    (hp : p <+: bs) (hne : p ≠ bs) : loads cfg p = .error .eof := by
+  unfold dumps at hd
+  split at hd
+  · cases hd
+  · cases hd; exact C13_no_prefix cfg hcfg hmem v h p hp hne
+
 /-- the empty input "merely ends early" -/
 theorem C13_empty (cfg : Cfg) : loads cfg [] = .error .eof := rfl
 
@@ -77,5 +99,22 @@ example : loads cfgPublic [dumpVersion, opNONE] = .error .eof := by
 example : loads cfgPublic [dumpVersion, opCHANNEL, 0, 0, 0, 1, opSTOP] = .error .dataFormat := by
   simp only [loads, if_true]
   exact run_err (by rw [step_CHANNEL]; rfl)
+
+/-! non-vacuity of `C13_no_prefix`: a nested well-formed value, its dump, and a strict prefix cut
+inside the string payload of the dict value -/
+def c13Sample : PyVal := .tuple [.list [.int 7, .none], .dict [(.int 1, .str "ab")]]
+
+theorem c13Sample_WF : WF c13Sample := by
+  simp [c13Sample, WF, WFAll, WFPairs, fresh, hashable, pyMem, inI32, two31_eq]; decide
+
+example : dumps c13Sample = .ok
+    [2, 75, 0, 0, 0, 2, 70, 0, 0, 0, 0, 70, 0, 0, 0, 7, 80, 70, 0, 0, 0, 1, 76, 80,
+     74, 70, 0, 0, 0, 1, 78, 0, 0, 0, 2, 97, 98, 80, 64, 0, 0, 0, 2, 81] := by
+  rw [C01_total _ c13Sample_WF]; exact congrArg Except.ok (by decide)
+
+example : loads cfgPublic
+    [2, 75, 0, 0, 0, 2, 70, 0, 0, 0, 0, 70, 0, 0, 0, 7, 80, 70, 0, 0, 0, 1, 76, 80,
+     74, 70, 0, 0, 0, 1, 78, 0, 0, 0, 2, 97] = .error .eof :=
+  C13_no_prefix cfgPublic rfl rfl c13Sample c13Sample_WF _ (by decide) (by decide)
 
 end ExecnetVerif
